@@ -31,6 +31,9 @@ var c13Excluded = map[string]string{
 
 func runC13(c *Ctx) {
 	w := c.W
+	for _, r := range []string{"C13.0", "C13.1", "C13.2", "C13.3", "C13.4", "C04.8"} {
+		c.Robust(r)
+	}
 	c.Rule("C13.1", "every call from outside package storage into a storage entry point whose call cone touches shared page/cache/header state, the data file or the log is inside a shared-lock bracket (StartTxn .. EndTxn, interprocedurally: or its enclosing function is only ever called inside one), or the entry point acquires the store lock itself around every such access")
 	c.Rule("C13.2", "the log append of a statement happens in the SAME bracket as the statement's page changes: no release of the store lock lies on a path from a page-touching call to the log append that follows it")
 	c.Rule("C13.3", "code started by a go statement in package storage touches shared state only through functions that hold the exclusive store lock around every access")
@@ -417,6 +420,7 @@ func exclusiveSelfLocked(m *LockModel, t *Func) bool {
 
 // checkDataFileWrites: WriteAt sites and who can reach them (shared by C04.1 and C13.4).
 func checkDataFileWrites(c *Ctx, rule string) {
+	c.Robust(rule)
 	w := c.W
 	m := w.Locks()
 	cg := w.CG()
